@@ -346,6 +346,8 @@ def minimise(prop, known, failure, budget_s=20.0):
 
 def write_replay(prop, failure, tag="violation"):
     d = os.path.join(VERIF, "replays", prop.ID, "found")  # not auto-replayed; committed regressions live one level up
+    if os.environ.get("VERIF_EVIDENCE_DIR"):  # sensitivity self-test: keep /verif untouched
+        d = os.path.join(os.environ["VERIF_EVIDENCE_DIR"], "found", prop.ID)
     os.makedirs(d, exist_ok=True)
     h = hashlib.sha1(json.dumps(failure["case"], sort_keys=True, default=str).encode()).hexdigest()[:10]
     path = os.path.join(d, f"{tag}-{h}.json")
@@ -363,7 +365,7 @@ def write_replay(prop, failure, tag="violation"):
             sort_keys=True,
             default=str,
         )
-    return os.path.relpath(path, VERIF)
+    return os.path.relpath(path, VERIF) if path.startswith(VERIF) else path
 
 
 def run_replays(prop, known, only=None):
@@ -493,8 +495,9 @@ def run_check(prop, tier, seed, replay=None):
         "wall_s": round(wall, 2),
         "violations": len({v["signature"] for v in violations}),
     }
-    os.makedirs(os.path.join(VERIF, "evidence"), exist_ok=True)
-    with open(os.path.join(VERIF, "evidence", f"{prop.ID}.json"), "w") as fh:
+    evdir = os.environ.get("VERIF_EVIDENCE_DIR") or os.path.join(VERIF, "evidence")
+    os.makedirs(evdir, exist_ok=True)
+    with open(os.path.join(evdir, f"{prop.ID}.json"), "w") as fh:
         json.dump(evidence, fh, indent=1, default=str)
     print(
         f"{prop.ID} {tier} seed={seed}: {total_eval} cases, {len(nontrivial)} distinct non-trivial, "
